@@ -67,13 +67,12 @@ def strategy(tier):
                     st.fixed_dictionaries({"op": st.sampled_from(["setattr", "setitem"]), "leaf": st.just(i), "value": ops.value_for(node)}),
                     st.fixed_dictionaries({"op": st.sampled_from(["setattr", "setitem"]), "leaf": st.just(i), "value": ops.value_for(node)}),
                     st.fixed_dictionaries({"op": st.just("reset"), "leaf": st.just(i)}))
-            extra.append(st.integers(0, min(1, len(leaves) - 1)).flatmap(focused))
-            extra.append(st.integers(0, min(1, len(leaves) - 1)).flatmap(focused))
+            extra += [st.integers(0, min(1, len(leaves) - 1)).flatmap(focused)] * 5
             extra.append(st.integers(0, len(leaves) - 1).flatmap(focused))
         if conts:
             extra.append(st.fixed_dictionaries({"op": st.just("reset_sub"), "cont": st.integers(0, len(conts) - 1)}))
         base = ops.single_op(spec)
-        return st.fixed_dictionaries({"spec": st.just(spec), "ops": st.lists(st.one_of(base, base, *extra), min_size=2, max_size=n)})
+        return st.fixed_dictionaries({"spec": st.just(spec), "ops": st.lists(st.one_of(base, base, *extra), min_size=4, max_size=n)})
     return worlds.schema_spec(tier).flatmap(hist)
 
 
